@@ -188,10 +188,17 @@ def concretize(rng, idx, beh, prop, force_mode=None):
     if tr == "udp":
         mode = rng.choice(["direct", "direct", "udp"])
     else:
-        mode = rng.choice(["direct", "direct", "tcp", "httpget", "httppost"])
+        mode = rng.choice(["direct", "direct", "tcp", "tcp", "httpget", "httppost"])
     if force_mode:
         mode = force_mode
-    case = {"idx": idx, "mode": mode, "tr": tr, "mal": cq["mal"], "opt": opt, "nodes": nodes,
+    chunk, reps = "whole", 1
+    if mode == "tcp":
+        # client-side framing: one write / length prefix split 1+1 / prefix, then body / first octet, then rest /
+        # octet by octet; several queries (IDs id, id+1, ..) one after the other on the same connection
+        chunk = rng.choice(["whole", "prefix11", "prefix_body", "prefix1_rest", "bytes"])
+        if cq["mal"] in ("ok", "ok1x"):
+            reps = rng.choice([1, 2, 2, 3])
+    case = {"idx": idx, "mode": mode, "tr": tr, "mal": cq["mal"], "opt": opt, "nodes": nodes, "chunk": chunk, "reps": reps,
             "id": rng.choice([0, 0xFFFF, rng.randint(1, 0xFFFE), rng.randint(1, 0xFFFE)]),
             "name": mk_name(rng, idx, rng.choice(styles)), "target": "t%d.Redirect-Target.test." % idx,
             "qtype": qtype, "qclass": qclass, "flags": flags,
@@ -272,6 +279,7 @@ def composite_case(rng, idx, prop):
     tr = rng.choice(["udp", "tcp"])
     mode = "direct" if rng.random() < 0.7 else ("udp" if tr == "udp" else rng.choice(["tcp", "httppost"]))
     return {"idx": idx, "mode": mode, "tr": tr, "mal": "ok", "opt": opt, "nodes": nodes,
+            "chunk": rng.choice(["whole", "prefix11", "prefix_body", "prefix1_rest", "bytes"]), "reps": rng.choice([1, 2]),
             "id": rng.randint(0, 0xFFFF), "name": mk_name(rng, idx, rng.choice(["lower", "mixed"])),
             "target": "t%d.Redirect-Target.test." % idx, "qtype": rng.choice([1, 28]), "qclass": 1,
             "flags": rng.choice([0x0100, 0x0000, 0x0110]), "settle": 400, "expected": None, "beh": None}
